@@ -1060,6 +1060,14 @@ class FuncCanon(object):
             # (b) pure expression over stable operands: substitute everywhere
             #     (a helper's inlined result variable counts: it is written only inside the inlined region, which ends here)
             is_ret_copy = isinstance(e, ast.Name) and e.id in self.fresh and e.id.endswith("ret") and i > 0
+            if isinstance(e, ast.Name) and not is_ret_copy and e.id not in self.params and e.id not in self.captured and self.stores.get(e.id):
+                # plain copy `w = v`: every assignment of v lies in an earlier statement of this block, every read of w in a later one
+                earlier = set()
+                for s_ in blk[:i]:
+                    for n_ in ast.walk(s_):
+                        earlier.add(id(n_))
+                if all(isinstance(x, ast.Name) and id(x) in earlier for x in self.stores[e.id]):
+                    is_ret_copy = True
             if (self.pure_stable(e) or is_ret_copy) and (len(loads) == 1 or _expr_weight(e) <= 12):
                 for l in loads:
                     self._replace(later, l, copy.deepcopy(e) if len(loads) > 1 else e)
